@@ -51,6 +51,9 @@ class FsMixin:
     # ---- os.path
     def b_os_path_join(self, st, fr, args, kw):
         d, n = args
+        if isinstance(d, SVal) and d.kind == KStr and 'cp' in self.reg.ufuncs:
+            # joining onto a ZooKeeper path (a string): the child-path function of the contract module
+            return SVal(KStr, [self.reg.ufuncs['cp'][0](d.z, self.str_term(n))])
         return SVal(KPath, [self.coerce_to(st, d, KName).z, self.coerce_to(st, n, KName).z])
 
     def b_os_path_basename(self, st, fr, args, kw):
@@ -221,10 +224,16 @@ class FsMixin:
         """zknamespace.join_zookeeper_path(root, *child) = '/'.join((root,) + child): the child-path function cp applied
         once per component (cp is declared by the contract module; its injectivity is an axiom there)."""
         cp = self.reg.ufuncs['cp'][0]
-        cur = lift(args[0], KStr).z
+        cur = self.str_term(args[0])
         for a in args[1:]:
-            cur = cp(cur, lift(a, KStr).z)
+            cur = cp(cur, self.str_term(a))
         return [(st, SVal(KStr, [cur]))]
+
+    def str_term(self, a):
+        # names (atoms) enter a path through their text (name_str)
+        if isinstance(a, SVal) and a.kind == KName:
+            return self.to_str(a)
+        return lift(a, KStr).z
 
     def model_with_retry(self, st, fr, args, kwargs):
         """zkutils.with_retry(func, *args, **kwargs): calls func(*args, **kwargs) (again after a connection loss, which is
